@@ -548,6 +548,9 @@ func (e *executor) execSub(cmd string, w []string) error {
 			return fmt.Errorf("in `%s`: `%s` references %s %s which does not exist", b.Head, cmd, s.kind, w[s.idx])
 		}
 	}
+	if e.mode == "webvpn" && len(w) == 4 && w[0] == "certificate-group-map" && e.d.findHead("crypto ca certificate map "+w[1]+" "+w[2]) == nil {
+		return fmt.Errorf("`%s` names rule %s of certificate map %s: no such entry", cmd, w[2], w[1])
+	}
 	if e.mode == "group" {
 		for _, s := range b.Subs {
 			if s == cmd {
@@ -915,6 +918,9 @@ func (e *executor) execTop(cmd string, w []string) error {
 			if !d.exists(ref{s.kind, pw[s.idx]}) {
 				return fmt.Errorf("`%s` references %s %s which does not exist", cmd, s.kind, pw[s.idx])
 			}
+		}
+		if len(pw) == 4 && d.findHead("crypto ca certificate map "+pw[1]+" "+pw[2]) == nil {
+			return fmt.Errorf("`%s` names rule %s of certificate map %s: no such entry", cmd, pw[2], pw[1])
 		}
 		key := strings.Join(pw[:len(pw)-1], " ")
 		for _, b := range d.Blocks {
